@@ -264,16 +264,18 @@ func (g *gen) firstTx(ix *RefIndex, k []byte) uint64 {
 	return vs[len(vs)-1].Tx
 }
 
-// upper transaction bound of a ranged read: embedded/tbtree mis-reads when the bound lies below the
-// oldest version of a key (known finding of C10, lastUpdateBetween); such bounds are left to C10
+// upper transaction bound of a ranged read: unbounded, or anywhere from below the oldest version of
+// the keys read (nothing qualifies) to beyond the last transaction
 func (g *gen) safeHi(minHi, last uint64, aff bool) uint64 {
-	if g.rng.Intn(3) == 0 {
+	switch g.rng.Intn(4) {
+	case 0:
 		return 0
+	case 1:
+		if minHi <= last {
+			return minHi + uint64(g.rng.Intn(int(last-minHi)+2))
+		}
 	}
-	if aff || minHi > last {
-		return last + uint64(g.rng.Intn(2))
-	}
-	return minHi + uint64(g.rng.Intn(int(last-minHi)+2))
+	return uint64(g.rng.Intn(int(last) + 2))
 }
 
 func (g *gen) rspec(ix *RefIndex, c Cfg) RSpec {
@@ -361,17 +363,6 @@ func runHistory1(r *sink, rs runSpec, bucketPrefix string) error {
 	g.sc.Multi, g.idxs = randIdxs(rng)
 	g.noExp = rng.Intn(3) == 0
 	g.tooLong = rs.det && rng.Intn(40) == 0
-	lagging := false // an index that looks previous versions up in ANOTHER index
-	for _, c := range g.idxs {
-		lagging = lagging || c.Src == 2
-	}
-	if lagging {
-		// embedded/tbtree mis-reads GetBetween below a key's oldest version once its history is
-		// flushed (known finding of C10); indexSince issues exactly such reads against a source
-		// index that is ahead (probe D5). Until that is repaired the source index is not flushed
-		// while the dependent index lags, so that this check keeps to its own subject.
-		g.sc.FlushThld, g.sc.SyncThld, g.sc.MaxBuf = 100000, 100000, 1<<20
-	}
 	if !rs.det {
 		// unknown bulk schedule: only configurations on which the code under test is expected to
 		// agree with the specification for EVERY schedule are compared (the others are exercised
@@ -440,7 +431,7 @@ func runHistory1(r *sink, rs runSpec, bucketPrefix string) error {
 			} else if err != nil {
 				return fmt.Errorf("commit: %w (tx %s)", err, historyDigest([]Tx{t}))
 			}
-			if !rs.det && !lagging && rng.Intn(10) == 0 {
+			if !rs.det && rng.Intn(10) == 0 {
 				if err := s.st.FlushIndexes(g.sc.Cleanup, rng.Intn(2) == 0); !maintErrOK(err) {
 					maint = append(maint, "flush: "+err.Error())
 				}
